@@ -441,6 +441,12 @@ func Ite(c, a, b bool) bool {
 	return b
 }
 
+// DepthIsFault declares (engine only) that no terminating run of the code under test on this harness's
+// inputs nests calls deeper than n frames: exceeding it is reported as a run-time fault (stack overflow:
+// unbounded recursion) instead of ending the path at the engine's call-depth bound. Natively the real
+// stack overflow is fatal to the replay process, which is the reproduction.
+func DepthIsFault(n int) {}
+
 // SymbolicAddrs makes pointer-to-integer conversions yield arbitrary (symbolic) addresses (engine only).
 func SymbolicAddrs(on bool) {}
 
